@@ -26,7 +26,7 @@ fn fwd(op: &Op, _ctx: &dyn Context, operands: &mut dyn CoordinateSet) -> usize {
         let cc = c * c;
         let ss = s * s;
 
-        let dlon = coord[0] - lon_0;
+        let dlon = angular::normalize_symmetric(coord[0] - lon_0);
         let oo = dlon * dlon;
 
         #[allow(non_snake_case)]
